@@ -3,6 +3,10 @@ import json, os, sys
 HERE = os.path.dirname(os.path.dirname(os.path.abspath(__file__)))
 
 CHECKS = {
+    "C04": ("fault_enumeration", "3 C04",
+            "For every deduplicated valid record of the bounded tree exploration (1-3 containers, both classes) every single corruption of the catalogue (each payload byte and each byte of the newest manifest XOR/+1, truncations, extensions, removal of each element, foreign/forked/duplicated containers, manifest removed/foreign/older) is applied to a copy; open('r') must fail iff the set is incoherent, and coherent prefixes/forks must open with the state at their commit.",
+            "Coherence predicate is computed by the harness from how it built the set; user-block bytes are not in the property's corruption list; quick tier enumerates bytes for 4 records, thorough for all.",
+            "exhaustive single-fault enumeration against the real open path"),
     "C02": ("model_checking", "3 C02",
             "BFS over the record lifecycle alphabet (writes, read, create/commit/discard patch, close with/without commit, reopen r/r+/a by name and by permuted list, merge) on real IH5Record and IH5MFRecord objects, deduplicated on open-state + raw container shapes; a monitor after every transition checks sha256 identity of every file ever committed (incl. manifest sidecars) and re-opens the committed file sets in place.",
             "Committed = user block carries hdf5_hashsum (documented field, read by the harness's own parser); mode 'w' excluded as the property says; tmpfs.",
